@@ -318,6 +318,9 @@ class BlockNet(Engine):
         elif fl == 2:
             k = n // 20
             s = b'\xad' * (n - 20 * k) + b''.join(bytes([0x52, 0xaf]) for j in range(k))
+        elif fl == 3:
+            # (round u) behind OP_RETURN: a data-carrier output can never be executed, and its signature operations count all the same
+            s = b'\x6a' + b'\xac' * n
         else:
             s = b'\xac' * n
         if malformed_tail:
@@ -328,7 +331,7 @@ class BlockNet(Engine):
         ctx = self.ctx
         r = a['r']
         txs = blk['txs']
-        self._sig_flavour = (r[3] >> 3) % 3
+        self._sig_flavour = (r[3] >> 3) % 4
 
         def some_tx():
             while len(txs) < 2:
